@@ -94,6 +94,8 @@ func init() {
 			Run: func(P *Program, R *Report) {
 				sharedRule(P, R, "C12", "C12.b", "C13.i", func(c string) bool { return strings.Contains(c, "MResponse-before") })
 			}},
+		Rule{ID: "C13.j", Explain: "the structure proves the bound that was asked for: newWithParams keeps its own copies of the bound (the k obligations of C12.e, same rule) - sharing the caller's integer makes the proven K follow later changes of the statement.",
+			Run: func(P *Program, R *Report) { sharedRule(P, R, "C12", "C12.e", "C13.j", func(c string) bool { return strings.Contains(c, "newWithParams") }) }},
 	)
 }
 
@@ -395,6 +397,33 @@ func statementFilingRule(P *Program, R *Report) {
 	ok := len(tail) == 1 && (tail[0].D == "call:rangeproof.(*Statement).ProofStructure("+stmt+","+key+")#0" ||
 		tail[0].D == "call:rangeproof.NewProofStructure("+key+","+stmt+".Sign,"+stmt+".Factor,"+stmt+".Bound,"+stmt+".Splitter)#0")
 	R.decide(rule, kCredBuilder+":filed", "every statement's structure is built for, and filed under, the index the caller gave it", ok, seqString(tail), P.Pos(app.Ins.Pos()))
+	// no requested statement is left out: a builder is returned only if every iteration of the walk over the requested
+	// statements (outer: attribute indices, inner: that attribute's statements) reached the filing - an iteration that
+	// is skipped (`continue`) yields a proof that verifies and silently lacks the inequality
+	appIns, _ := app.Ins.(ssa.Instruction)
+	if appIns != nil {
+		inner := innermostLoopOf(appIns.Block())
+		okAll, why := inner != nil, "the filing is not inside a loop"
+		for l := inner; l != nil && okAll; {
+			q := &MustPass{P: P, NoInterproc: true, Instr: func(_ *ssa.Function, i ssa.Instruction) bool { return i == appIns }}
+			if l != inner {
+				// an outer iteration passes the obligation by entering the inner walk (whose every iteration files)
+				q = &MustPass{P: P, NoInterproc: true, Instr: func(_ *ssa.Function, i ssa.Instruction) bool { return i.Block() == inner.Header }}
+			}
+			if r := q.ForAllBody(fn, l, AcceptNilErr(1), false); !r.Holds {
+				okAll, why = false, r.Path
+			}
+			var outer *Loop
+			for h := l.Header.Idom(); h != nil; h = h.Idom() {
+				if o := findLoop(h); o != nil && len(o.Latch) > 0 && o.Body[l.Header] && o.Header != l.Header {
+					outer = o
+					break
+				}
+			}
+			l = outer
+		}
+		R.decide(rule, kCredBuilder+":every-statement", "a builder is returned only if every requested statement was filed (no statement is skipped)", okAll, why, P.Pos(appIns.Pos()))
+	}
 	r := (&MustPass{P: P, Match: func(a Atom) bool {
 		// the index is not contained in the disclosed list (tested here or in a helper such as isUndisclosedAttribute)
 		c, okc := callAtom(a, False, "slices.Contains")
